@@ -43,6 +43,12 @@ func (cl *Client) ChangePasswd(newPasswd string) (bool, error) {
 		return false, err
 	}
 	if r.ResultCode != KRB5_KPASSWD_SUCCESS {
+		if r.ResultCode > KRB5_KPASSWD_INITIAL_FLAG_NEEDED {
+			// Not a result code of the protocol: what was decrypted is not a reply of the password service (the
+			// request itself sent back decrypts under the same key, and it holds the new password), so its
+			// contents do not go into the error.
+			return false, fmt.Errorf("error response from kadmin: unknown result code: %d; krberror: %v", r.ResultCode, r.KRBError)
+		}
 		return false, fmt.Errorf("error response from kadmin: code: %d; result: %s; krberror: %v", r.ResultCode, r.Result, r.KRBError)
 	}
 	cl.Credentials.WithPassword(newPasswd)
